@@ -105,6 +105,8 @@ def base_isa(consts):
         'imm8': {'operand_values': {'n': {'type': 'numeric', 'bytecode': code('c_i8', 2), 'argument': arg(8, True)}}},
         'imm16': {'operand_values': {'n': {'type': 'numeric', 'bytecode': code('c_i16', 2), 'argument': arg(16, True, 'little')}}},
         'mem': {'operand_values': {'m': {'type': 'indirect_numeric', 'bytecode': code('c_m', 2), 'argument': arg(16, True)}}},
+        'defm': {'operand_values': {'d': {'type': 'deferred_numeric', 'bytecode': code('c_d', 2), 'argument': arg(16, True)},
+                                    'm': {'type': 'indirect_numeric', 'bytecode': code('c_m2', 2), 'argument': arg(16, True)}}},
         'rel': {'operand_values': {'r': {'type': 'relative_address', 'argument': arg(8, True, min=-128, max=127)}}},
         'rele': {'operand_values': {'r': {'type': 'relative_address', 'offset_from_instruction_end': True,
                                           'argument': arg(8, True, min=-128, max=127)}}},
@@ -116,6 +118,7 @@ def base_isa(consts):
         'ldw': {'bytecode': code('op_ldw', 6), 'operands': {'count': 2, 'operand_sets': {'list': ['regs', 'imm16']}}},
         'ldm': {'bytecode': code('op_ldm', 3), 'operands': {'count': 2, 'operand_sets': {'list': ['regs', 'mem']}}},
         'add': {'bytecode': code('op_add', 2), 'operands': {'count': 2, 'operand_sets': {'list': ['regs', 'regs']}}},
+        'ldd': {'bytecode': code('op_ldd', 4), 'operands': {'count': 2, 'operand_sets': {'list': ['regs', 'defm']}}},
         'jr': {'bytecode': code('op_jr', 8), 'operands': {'count': 1, 'operand_sets': {'list': ['rel']}}},
         'jre': {'bytecode': code('op_jre', 8), 'operands': {'count': 1, 'operand_sets': {'list': ['rele']}}},
     }
@@ -150,6 +153,9 @@ def base_isa(consts):
         # placeholders are replaced by the operand's *text*: precedence is that of the resulting text
         'dbl': [{'operands': {'count': 2, 'operand_sets': {'list': ['regs', 'imm8']}},
                  'instructions': ['ldi @REG(0), @ARG(1)*2', 'ldi @REG(0), 10-@ARG(1)', 'ldw @REG(0), @OP(1)*3']}],
+        # @OP is the operand as written: `[[x]]` stays deferred, `[x]` stays indirect
+        'ldd2': [{'operands': {'count': 2, 'operand_sets': {'list': ['regs', 'defm']}},
+                  'instructions': ['ldd @OP(0), @OP(1)', 'ldd @REG(0), [[@ARG(1) + 2]]', 'ldd @REG(0), [@ARG(1)]']}],
         'badarg': [{'operands': {'count': 1, 'operand_sets': {'list': ['regs']}}, 'instructions': ['ldi ra, @ARG(0)']}],
         'badreg': [{'operands': {'count': 1, 'operand_sets': {'list': ['imm8']}}, 'instructions': ['ldi @REG(0), 1']}],
         'badidx': [{'operands': {'count': 1, 'operand_sets': {'list': ['imm8']}}, 'instructions': ['ldi ra, @ARG(1)']}],
@@ -182,6 +188,10 @@ CATALOGUE = [
     ('argument-text-next-to-tighter-operator', 'dbl ra, v1+1', 'ldi ra, v1+1*2\nldi ra, 10-v1+1\nldw ra, v1+1*3', {'v1': (-200, 300)},
      ['ok/ok', 'rejected/rejected']),
     ('argument-text-with-shift', 'dbl rb, v1 & 6', 'ldi rb, v1 & 6*2\nldi rb, 10-v1 & 6\nldw rb, v1 & 6*3', {'v1': (0, 255)}, ['ok/ok']),
+    ('full-text-of-deferred-operand', 'ldd2 ra, [[v1]]', 'ldd ra, [[v1]]\nldd ra, [[v1 + 2]]\nldd ra, [v1]', {'v1': vrange(16)},
+     ['ok/ok', 'rejected/rejected']),
+    ('full-text-of-indirect-operand', 'ldd2 rb, [ v1 ]', 'ldd rb, [ v1 ]\nldd rb, [[v1 + 2]]\nldd rb, [v1]', {'v1': vrange(16)},
+     ['ok/ok', 'rejected/rejected']),
     ('two-invocations', 'a1: jj a1\nnn\na2: jj a1', 'a1: nop\njr a1\nn4\nnop\na2: nop\njr a1', {}, ['ok/ok']),
     ('label-between-macros', 'nn\nmid: jj mid\nldi2 ra, LSB(mid)', 'n4\nnop\nmid: nop\njr mid\nldi ra, LSB(mid)\nldi ra, LSB(mid) + 1',
      {}, ['ok/ok', 'rejected/rejected']),
